@@ -28,6 +28,36 @@ type Cond struct {
 // collector does not model (goto, labelled break/continue out of the region,
 // switch/select arms) lies on the way — the caller must then answer undecided.
 func PathCond(file *ast.File, body *ast.BlockStmt, pos token.Pos) (conds []Cond, complex bool) {
+	conds, complex = pathCond(file, body, pos)
+	var out []Cond
+	for _, c := range conds {
+		out = append(out, splitCond(c)...)
+	}
+	return out, complex
+}
+
+// splitCond flattens top-level conjunctions: a&&b → a, b ; ¬(a||b) → ¬a, ¬b.
+func splitCond(c Cond) []Cond {
+	e := c.Expr
+	for {
+		p, ok := e.(*ast.ParenExpr)
+		if !ok {
+			break
+		}
+		e = p.X
+	}
+	if u, ok := e.(*ast.UnaryExpr); ok && u.Op == token.NOT {
+		return splitCond(Cond{u.X, !c.Neg})
+	}
+	if b, ok := e.(*ast.BinaryExpr); ok {
+		if (b.Op == token.LAND && !c.Neg) || (b.Op == token.LOR && c.Neg) {
+			return append(splitCond(Cond{b.X, c.Neg}), splitCond(Cond{b.Y, c.Neg})...)
+		}
+	}
+	return []Cond{{e, c.Neg}}
+}
+
+func pathCond(file *ast.File, body *ast.BlockStmt, pos token.Pos) (conds []Cond, complex bool) {
 	path, _ := astutil.PathEnclosingInterval(file, pos, pos)
 	// path[0] is innermost.
 	for i, n := range path {
